@@ -95,9 +95,12 @@ def gen_sig(rng):
                 p["ci"] = True
             if (p["alias"] or p["alias_from"] or p["ci"]) and p["default"] is not None and p["default"][0] == "py":
                 p["default"] = ("param", p["default"][1])
+    has_vk = any(p["kind"] == "vk" for p in params)
     return {"params": params, "ret": rng.choice([None, None, "int", "str"]), "ctx": rng.choice(["plain", "plain", "method", "classmethod", "staticmethod"]),
             "parse_outside": rng.random() < 0.5,
-            "opts": rng.choice([None, None, None, "collect_errors=True", "collect_errors=True", "case_insensitive=True"]),
+            # (with **kwargs in the signature, options that talk about additions themselves: the annotation of **kwargs still decides)
+            "opts": rng.choice([None, None, None, "collect_errors=True", "collect_errors=True", "case_insensitive=True"] +
+                               (["addition=True", "addition=True", "addition=True, collect_errors=True"] if has_vk else [])),
             "is_async": rng.random() < 0.2, "body_ret": rng.choice(["a1", "lit"])}
 
 
